@@ -5,6 +5,241 @@ from sa.kinds import vspec as VS, callgraph as CG
 INQ = 'crates/erg_compiler/context/inquire.rs'
 
 
+BP = 'crates/erg_compiler/build_package.rs'
+GR = 'crates/erg_compiler/module/graph.rs'
+
+
+def _local_arg(n, i=0):
+    a = T.peel(n['a'][i]) if len(n.get('a', [])) > i else {}
+    while a.get('k') == 'MCall' and a.get('n') in ('clone', 'to_path_buf'):
+        a = T.peel(a['r'])
+    return a.get('n') if a.get('k') == 'Local' else None
+
+
+def import_rules(chk, fx):
+    chk.rule('C20-R3', 'each module is resolved once: in PackageBuilder::register the source of a module X is parsed (self.parse(&X)) and entered into self.asts only on paths where '
+                       '`X == from_path || self.inlines.contains_key(&X) || self.asts.contains_key(&X)` was false (for the imported module and for its package root)')
+    chk.rule('C20-R4', 'import cycles end the descent: the imported module is parsed / resolved only after `graph.inc_ref(&from_path, X)` succeeded, its Err edge returning a ResolveError')
+    chk.rule('C20-R5', 'the module graph is acyclic by construction: a dependency edge is added (Node::push_dep / depends_on.insert of a new key) only in ModuleGraph::inc_ref, '
+                       'after `referrer == depends_on` returned and `deep_depends_on(depends_on, referrer)` returned Err; the build loop relies on it to terminate')
+    chk.rule('C20-R6', 'each module is analysed once and every waiter is released: build_deps_and_module starts an analysis only with the entry it *removed* from self.asts, removes the '
+                       'node from the graph in the same branch, and every way out of start_analysis_process registers a promise (insert / mark_as_joined / build_decl_mod) or is '
+                       'the already-registered shortcut')
+    reg = fx.fn(BP, 'GenericPackageBuilder::register')
+    if not chk.need(reg is not None, 'PackageBuilder::register not found'):
+        return
+    # --- R3 / R4
+    seen_tests = {}
+    for n in T.walk(reg['body']):
+        if n.get('k') == 'If':
+            keys = [c for c in T.calls(n['c']) if c.get('k') == 'MCall' and c['n'] == 'contains_key' and T.show(T.peel(c['r'])).split('.')[-1] in ('asts', 'inlines')]
+            if keys and _local_arg(keys[0]):
+                seen_tests[_local_arg(keys[0])] = n
+    chk.floor('seen-tests in PackageBuilder::register', len(seen_tests), 2)
+    for X, test in sorted(seen_tests.items()):
+        cs = T.show(test['c']).replace(' ', '')
+        complete = ('inlines.contains_key' in cs) and ('asts.contains_key' in cs) and ('==' in cs and 'from_path' in cs)
+
+        def acts(n, X=X):
+            if n.get('k') != 'MCall':
+                return False
+            if n['n'] == 'parse' and T.show(T.peel(n['r'])) == 'self' and _local_arg(n) == X:
+                return True
+            if n['n'] == 'insert' and T.show(T.peel(n['r'])).endswith('asts') and _local_arg(n) == X:
+                return True
+            return False
+
+        def refine(cond, branch, st, test=test):
+            if cond is test['c']:
+                return (not branch) or st
+            return None
+        dom = VS.Dominates(lambda n: False, acts, refine)
+        bad = dom.run(reg)
+        if not chk.need(dom.good_exits + len(bad) >= 2, 'register: parse(&%s) / asts.insert(%s, ..) not found' % (X, X)):
+            continue
+        for b in bad:
+            chk.bad('C20-R3', 'GenericPackageBuilder::register', 'unseen:%s:%s' % (X, b['n']), 'register: `%s` runs on a path where %s may already have been resolved (seen-test skipped): '
+                    'the module is analysed twice, or the descent does not end on a diamond' % (T.show(b)[:50], X), BP, b['l'])
+        if not bad:
+            chk.ok('C20-R3', ('guarded', X), sample='parse(&%s) and asts.insert(%s, ..) only after the seen-test was false' % (X, X))
+        if complete:
+            chk.ok('C20-R3', ('test', X))
+        else:
+            chk.bad('C20-R3', 'GenericPackageBuilder::register', 'seen-test:%s' % X, 'the seen-test for %s no longer covers `== from_path`, `inlines` and `asts`: `%s`' % (X, T.show(test['c'])[:120]),
+                    BP, test['l'])
+    # R4: for the imported module (the X whose inc_ref result is inspected)
+    edge_ifs = []
+    for n in T.walk(reg['body']):
+        if n.get('k') == 'If':
+            lc = [x for x in T.walk(n['c']) if x.get('k') == 'LetCond']
+            incs = [c for c in T.calls(n['c']) if c.get('k') == 'MCall' and c['n'] == 'inc_ref']
+            if lc and incs and any(v.endswith('::Err') for v in T.pat_variants(lc[0]['pat'])):
+                rets = [r for r in T.walk(n['t']) if r.get('k') == 'Ret']
+                if rets and _local_arg(incs[0], 1) in seen_tests:
+                    edge_ifs.append((n, _local_arg(incs[0], 1)))
+    if chk.need(len(edge_ifs) == 1, 'register: `if let Err(..) = graph.inc_ref(&from_path, X) { return Err(..) }` not found'):
+        eif, X = edge_ifs[0]
+
+        def acts4(n):
+            return n.get('k') == 'MCall' and n['n'] in ('parse',) and T.show(T.peel(n['r'])) == 'self' and _local_arg(n) == X
+
+        def refine4(cond, branch, st):
+            if cond is eif['c']:
+                return (not branch) or st
+            return None
+        dom = VS.Dominates(lambda n: False, acts4, refine4)
+        bad = dom.run(reg)
+        chk.need(dom.good_exits + len(bad) >= 1, 'register: parse(&%s) not found' % X)
+        for b in bad:
+            chk.bad('C20-R4', 'GenericPackageBuilder::register', 'descent-before-cycle-test', 'register parses / resolves %s before `inc_ref(&from_path, %s)` has refused a cyclic edge: '
+                    'an import cycle is followed without end' % (X, X), BP, b['l'])
+        if not bad:
+            chk.ok('C20-R4', X, sample='inc_ref(&from_path, %s) is tested before parse(&%s)' % (X, X))
+    # --- R5
+    g, meta = CG.graph(fx, 'erg_compiler')
+    writers = []
+    for f in fx.fns(GR):
+        nm = T.norm(f['path'])
+        for n in T.walk(f['body']):
+            if n.get('k') == 'MCall' and n['n'] == 'push_dep':
+                writers.append((nm, n))
+    chk.floor('push_dep sites', len(writers), 1)
+    inc = fx.fn(GR, 'ModuleGraph::inc_ref')
+    for nm, n in writers:
+        if nm != 'ModuleGraph::inc_ref':
+            chk.bad('C20-R5', nm, 'edge-writer', '%s adds a dependency edge without the cycle test of ModuleGraph::inc_ref' % nm, GR, n['l'])
+    if chk.need(inc is not None, 'ModuleGraph::inc_ref not found'):
+        tests = {}
+        for n in T.walk(inc['body']):
+            if n.get('k') == 'If' and any(r.get('k') == 'Ret' for r in T.walk(n['t'])):
+                cs = T.show(n['c']).replace(' ', '')
+                if 'deep_depends_on' in cs:
+                    tests['cycle'] = n
+                elif '==' in cs and 'referrer' in cs and 'depends_on' in cs:
+                    tests['self'] = n
+        for key in ('cycle', 'self'):
+            if key not in tests and writers:
+                chk.bad('C20-R5', 'ModuleGraph::inc_ref', 'no-%s-test' % key, 'inc_ref adds a dependency edge without %s' % (
+                    'testing whether the new dependency already reaches the referrer (deep_depends_on): a cyclic edge enters the graph and the build loop does not end' if key == 'cycle'
+                    else 'setting aside `referrer == depends_on`: a self-import becomes a self-edge'), GR, inc['line'])
+        if set(tests) == {'cycle', 'self'}:
+            cyc = tests['cycle']
+            c = [x for x in T.calls(cyc['c']) if x.get('k') == 'MCall' and x['n'] == 'deep_depends_on'][0]
+            a0, a1 = _local_arg(c, 0), _local_arg(c, 1)
+            errs = [r for r in T.walk(cyc['t']) if r.get('k') == 'Ret' and 'Err' in T.show(r.get('x') or {})]
+            if (a0, a1) == ('depends_on', 'referrer') and errs:
+                chk.ok('C20-R5', 'cycle-test', sample='inc_ref: if self.deep_depends_on(&depends_on, referrer) { return Err(CycleDetected) }')
+            else:
+                chk.bad('C20-R5', 'ModuleGraph::inc_ref', 'cycle-test', 'the cycle test of inc_ref is `%s` (expected: the new dependency already reaches the referrer -> Err)'
+                        % T.show(cyc['c'])[:100], GR, cyc['l'])
+            state = {'n': 0}
+
+            def acts5(n):
+                return n.get('k') == 'MCall' and n['n'] == 'push_dep'
+
+            def refine5(cond, branch, st):
+                if cond is cyc['c']:
+                    return ((not branch) and st is not False) if st is not None else None
+                return None
+            # both tests must have been passed (false) before push_dep: run twice
+            for key in ('cycle', 'self'):
+                tn = tests[key]
+
+                def refine_k(cond, branch, st, tn=tn):
+                    if cond is tn['c']:
+                        return (not branch) or st
+                    return None
+                dom = VS.Dominates(lambda n: False, acts5, refine_k)
+                bad = dom.run(inc)
+                for b in bad:
+                    chk.bad('C20-R5', 'ModuleGraph::inc_ref', 'edge-before-%s-test' % key, 'inc_ref adds the edge on a path that skipped the %s test' % key, GR, b['l'])
+                if not bad and dom.good_exits:
+                    chk.ok('C20-R5', ('dominates', key))
+    # R5b: the reachability test itself is transitive
+    dd = fx.fn(GR, 'ModuleGraph::deep_depends_on_')
+    if chk.need(dd is not None, 'ModuleGraph::deep_depends_on_ not found'):
+        rec = [c for c in T.calls(dd['body']) if c.get('k') == 'MCall' and c['n'] == 'deep_depends_on_']
+        anys = [c for c in T.calls(dd['body']) if c.get('k') == 'MCall' and c['n'] == 'any' and 'depends_on' in T.show(T.peel(c['r']))
+                and any(x is r for r in rec for a in c['a'] for x in T.walk(a))]
+        direct = [c for c in T.calls(dd['body']) if c.get('k') == 'MCall' and c['n'] == 'contains' and 'depends_on' in T.show(T.peel(c['r'])) and _local_arg(c) == 'target']
+        ors = [n for n in T.walk(dd['body']) if n.get('k') == 'Binary' and n.get('op') in ('||', 'Or') and direct and anys
+               and any(x is direct[0] for x in T.walk(n)) and any(x is anys[0] for x in T.walk(n))]
+        same_target = rec and all(_local_arg(r, 1) == 'target' for r in rec)
+        if rec and anys and direct and ors and same_target:
+            chk.ok('C20-R5', 'transitive', sample='deep_depends_on_: depends_on.contains(target) || depends_on.iter().any(|p| self.deep_depends_on_(p, target, visited))')
+        else:
+            chk.bad('C20-R5', 'ModuleGraph::deep_depends_on_', 'transitive', 'deep_depends_on_ is no longer `direct dependency || some dependency reaches the target` '
+                    '(recursive calls %d, under any(): %d, direct test: %d, joined by ||: %d): cycles longer than the test sees enter the graph'
+                    % (len(rec), len(anys), len(direct), len(ors)), GR, dd['line'])
+    # --- R6
+    bd = fx.fn(BP, 'GenericPackageBuilder::build_deps_and_module')
+    sap = fx.fn(BP, 'GenericPackageBuilder::start_analysis_process')
+    if chk.need(bd is not None and sap is not None, 'build_deps_and_module / start_analysis_process not found'):
+        starts = [c for c in T.calls(bd['body']) if c.get('k') == 'MCall' and c['n'] == 'start_analysis_process']
+        chk.floor('start_analysis_process calls in build_deps_and_module', len(starts), 1)
+        for n, ctx in T.walk_ctx(bd['body']):
+            if n in starts or any(n is s for s in starts):
+                via_remove, removed_node = False, False
+                for c in ctx:
+                    if c[0] == 'if':
+                        cond = c[1]
+                        lc = [x for x in T.walk(cond) if x.get('k') == 'LetCond']
+                        rm = [x for x in T.calls(cond) if x.get('k') == 'MCall' and x['n'] == 'remove' and T.show(T.peel(x['r'])).endswith('asts')]
+                        if lc and rm and c[2] is True:
+                            bound = set(T.pat_bindings(lc[0]['pat'])) if hasattr(T, 'pat_bindings') else set()
+                            used = {x.get('n') for a in n['a'] for x in T.walk(a) if x.get('k') == 'Local'}
+                            names = {b if isinstance(b, str) else b.get('n') for b in bound}
+                            if names & used:
+                                via_remove = True
+                # the enclosing parentless-branch must remove the node from the graph
+                for c in ctx:
+                    if c[0] == 'if' and c[2] is True and 'parents' in T.show(c[1]):
+                        pass
+                if via_remove:
+                    chk.ok('C20-R6', 'entry-removed', sample='start_analysis_process(entry.ast, ..) with `if let Some(entry) = self.asts.remove(&ancestor)`')
+                else:
+                    chk.bad('C20-R6', 'GenericPackageBuilder::build_deps_and_module', 'entry-not-removed', 'an analysis is started with an entry that was not removed from self.asts: '
+                            'the module can be analysed again', BP, n['l'])
+        # graph.remove(&ancestor) in the branch that processes a parentless ancestor
+        done = False
+        for n in T.walk(bd['body']):
+            if n.get('k') == 'If' and 'parents' in T.show(n['c']):
+                first_calls = [c for c in T.calls(n['t']) if c.get('k') == 'MCall' and c['n'] == 'remove' and T.show(T.peel(c['r'])) == 'graph']
+                has_start = any(c.get('k') == 'MCall' and c['n'] == 'start_analysis_process' for c in T.calls(n['t']))
+                if has_start:
+                    done = True
+                    if first_calls:
+                        chk.ok('C20-R6', 'node-removed', sample='graph.remove(&ancestor) in the branch that builds a parentless ancestor')
+                    else:
+                        chk.bad('C20-R6', 'GenericPackageBuilder::build_deps_and_module', 'node-not-removed', 'the branch that builds an ancestor without pending parents does not remove it '
+                                'from the graph: its dependents never become buildable and the loop does not end', BP, n['l'])
+        chk.need(done, 'build_deps_and_module: the `parents(..).is_none_or(empty)` branch was not found')
+        # exits of start_analysis_process
+
+        def promise(n):
+            if n.get('k') != 'MCall':
+                return False
+            if n['n'] in ('insert', 'mark_as_joined') and 'promises' in T.show(T.peel(n['r'])):
+                return True
+            return n['n'] == 'build_decl_mod'
+        shortcut = [n for n in T.walk(sap['body']) if n.get('k') == 'If' and 'mod_registered' in T.show(n['c'])]
+
+        def refine6(cond, branch, st):
+            if shortcut and cond is shortcut[0]['c'] and branch:
+                return True
+            return None
+        class MP(VS.MustPass):
+            def refine(self, cond, branch, st):
+                r = refine6(cond, branch, st)
+                return st if r is None else r
+        out = MP(promise).run_fn(sap, False)
+        if out is None or out is True:
+            chk.ok('C20-R6', 'promise-on-every-exit', sample='every exit of start_analysis_process passes promises.insert / mark_as_joined / build_decl_mod (or is the mod_registered shortcut)')
+        else:
+            chk.bad('C20-R6', 'GenericPackageBuilder::start_analysis_process', 'exit-without-promise', 'start_analysis_process can return without registering a promise for the module: '
+                    'a module that imports it waits for ever', BP, sap['line'])
+
+
 def run(chk):
     fx = F.Facts()
     chk.rule('C20-R1', 'SharedModuleCache::raw_ref_ctx (the unsynchronised read of a module context) is called only from Context::get_mod_with_path, and there only after '
@@ -47,6 +282,7 @@ def run(chk):
                 INQ, b['l'])
     if not bad:
         chk.ok('C20-R1', 'get_mod_with_path', sample='%d read(s) of the cache, all after the join protocol' % dom.good_exits)
+    import_rules(chk, fx)
     from sa.props import c19
     chk.notes.append('C20-R2 is decided by C19-R3 (same engine); run ./check C19')
     return ('Who-may-call rule on the resolved call graph plus a dominance rule in Context::get_mod_with_path. Termination, once-only analysis and cycle handling depend on schedules '
